@@ -162,10 +162,15 @@ func main() {
 	c := &checker{prop: *prop, pc: pc, tier: *tier, seed: seed, scratch: scratch, workers: *workers, solver: *solver,
 		trace: *trace, known: known, verbose: *verbose, noReplay: *noReplay, overrideBounds: overrideBounds, exploreAll: *exploreAll}
 	c.prepare()
+	// (os.Exit does not run deferred calls: remove the scratch directory explicitly)
 	if *replay != "" {
-		os.Exit(c.replayFile(*replay))
+		rc := c.replayFile(*replay)
+		os.RemoveAll(scratch)
+		os.Exit(rc)
 	}
-	os.Exit(c.run(*only))
+	rc := c.run(*only)
+	os.RemoveAll(scratch)
+	os.Exit(rc)
 }
 
 type checker struct {
